@@ -27,7 +27,7 @@ import (
 // ---------------------------------------------------------------- inputs
 
 type opIn struct {
-	Op    string   `json:"op"` // new bucket wire measure direct collect string header values get average
+	Op    string   `json:"op"` // new bucket wire wirebad measure direct collect string header values get average
 	Obj   int      `json:"obj,omitempty"`
 	Idx   int      `json:"idx,omitempty"`
 	Rules []string `json:"rules,omitempty"`
@@ -36,6 +36,9 @@ type opIn struct {
 	Host  int      `json:"host,omitempty"`
 	Conn  int      `json:"conn,omitempty"` // tcp mode: reporting connection carrying this measure
 	Srcs  []int    `json:"srcs,omitempty"`
+	// wirebad: bytes put on the connection instead of a well-formed message;
+	// Name/V/Host are what the failed decode leaves in the monitor's struct
+	Raw string `json:"raw,omitempty"`
 }
 
 type input struct {
@@ -144,6 +147,8 @@ func (o opIn) coq() string {
 		return lib.App("OSetBucket", lib.Z(int64(o.Idx)), lib.List(rs))
 	case "wire":
 		return lib.App("OWire", lib.Str(o.Name), q(o.V), lib.Z(int64(o.Host)))
+	case "wirebad":
+		return lib.App("OWireErr", lib.Str(o.Name), q(o.V), lib.Z(int64(o.Host)))
 	case "measure":
 		return lib.App("OMeasure", lib.Str(o.Name), q(o.V), lib.Z(int64(o.Host)))
 	case "direct":
@@ -318,10 +323,19 @@ func runTCP(in input) (outs []outObs, discard bool) {
 		nconn = 1
 	}
 	per := make([][]wireMeasure, nconn)
-	for ; i < len(in.Ops) && in.Ops[i].Op == "wire"; i++ {
+	raw := make([][]string, nconn) // raw[c][k] != "" : send these bytes instead of per[c][k]
+	for ; i < len(in.Ops) && (in.Ops[i].Op == "wire" || in.Ops[i].Op == "wirebad"); i++ {
 		o := in.Ops[i]
 		c := o.Conn % nconn
+		if o.Op == "wirebad" && c == 0 {
+			panic("harness: connection 0 uses the client API and cannot carry raw bytes")
+		}
 		per[c] = append(per[c], wireMeasure{o.Name, o.V, o.Host})
+		r := ""
+		if o.Op == "wirebad" {
+			r = o.Raw
+		}
+		raw[c] = append(raw[c], r)
 		outs = append(outs, outObs{Kind: "none"})
 	}
 	// open every connection before anything is sent: the monitor stops as soon
@@ -361,7 +375,13 @@ func runTCP(in input) (outs []outObs, discard bool) {
 		go func(c int) {
 			enc := json.NewEncoder(conns[c])
 			ok := true
-			for _, m := range per[c] {
+			for k, m := range per[c] {
+				if raw[c][k] != "" {
+					if _, err := conns[c].Write([]byte(raw[c][k])); err != nil {
+						ok = false
+					}
+					continue
+				}
 				if err := enc.Encode(m); err != nil {
 					ok = false
 				}
@@ -557,11 +577,14 @@ func run(raw json.RawMessage) lib.Case {
 	obs := make([]string, len(outs))
 	human := []interface{}{}
 	nontrivial := false
+	failed := false
 	for i, o := range in.Ops {
 		ops[i] = o.coq()
 		obs[i] = outs[i].coq()
-		if outs[i].Kind != "none" {
+		if outs[i].Kind != "none" && !failed {
 			human = append(human, map[string]interface{}{"op": i, "kind": o.Op, "out": outs[i].human()})
+			// the entries after a crash / a blocked operation only repeat it
+			failed = outs[i].Kind == "crash" || outs[i].Kind == "deadlock"
 		}
 		if len(outs[i].Rows) > 0 {
 			nontrivial = true
@@ -825,6 +848,77 @@ func genTCP(rng *rand.Rand, maxvals int, reread bool) input {
 	return in
 }
 
+// one undecodable message on some raw connections (a host dying mid-message,
+// a wrong type, garbage): at most one per connection, so the connection's
+// error budget (the handler gives up at the second error) is never the issue
+func genTCPGarbage(rng *rand.Rand) input {
+	in := genTCP(rng, 10, false)
+	in.Kind = "tcp-garbage"
+	if in.Conns < 2 {
+		in.Conns = 2
+	}
+	var pre, wires, post []opIn
+	for _, o := range in.Ops {
+		switch {
+		case o.Op == "wire":
+			o.Conn = rng.Intn(in.Conns)
+			wires = append(wires, o)
+		case len(wires) == 0:
+			pre = append(pre, o)
+		default:
+			post = append(post, o)
+		}
+	}
+	per := make([][]opIn, in.Conns)
+	for _, o := range wires {
+		per[o.Conn] = append(per[o.Conn], o)
+	}
+	nbad := 1 + rng.Intn(2)
+	for b := 0; b < nbad; b++ {
+		c := 1 + rng.Intn(in.Conns-1)
+		has := false
+		for _, o := range per[c] {
+			if o.Op == "wirebad" {
+				has = true
+			}
+		}
+		if has {
+			continue
+		}
+		name := names[rng.Intn(4)]
+		host := rng.Intn(6)
+		v := float64(rng.Intn(64)) / 4
+		bad := opIn{Op: "wirebad", Conn: c}
+		last := false
+		switch rng.Intn(6) {
+		case 0:
+			bad.Raw, bad.Name, bad.V, bad.Host = fmt.Sprintf("{\"Name\":5,\"Value\":%v,\"Host\":%d}\n", v, host), "", v, host
+		case 1:
+			bad.Raw, bad.Name, bad.V, bad.Host = fmt.Sprintf("{\"Name\":%q,\"Value\":\"x\",\"Host\":%d}\n", name, host), name, 0, host
+		case 2:
+			bad.Raw, bad.Name, bad.V, bad.Host = fmt.Sprintf("{\"Name\":%q,\"Value\":1e400,\"Host\":%d}\n", name, host), name, 0, host
+		case 3:
+			bad.Raw = "[1,2]\n"
+		case 4:
+			bad.Raw, last = "GARBAGE\n", true
+		default:
+			bad.Raw, last = fmt.Sprintf("{\"Name\":%q,\"Val", name), true
+		}
+		if last {
+			per[c] = append(per[c], bad)
+		} else {
+			pos := rng.Intn(len(per[c]) + 1)
+			per[c] = append(per[c][:pos:pos], append([]opIn{bad}, per[c][pos:]...)...)
+		}
+	}
+	in.Ops = pre
+	for c := range per {
+		in.Ops = append(in.Ops, per[c]...)
+	}
+	in.Ops = append(in.Ops, post...)
+	return in
+}
+
 // every sequence of at most maxLen read-out operations before the final write
 func exhaustiveReadouts(vals []float64, maxLen int) []interface{} {
 	kinds := []string{"collect", "string", "header", "values"}
@@ -853,7 +947,7 @@ func exhaustiveReadouts(vals []float64, maxLen int) []interface{} {
 func generate(rng *rand.Rand, tier string) []interface{} {
 	scale := 1
 	if tier != "quick" {
-		scale = 12
+		scale = 20
 	}
 	var ins []interface{}
 	ins = append(ins, exhaustiveReadouts([]float64{1, 2, 3, 6}, 2)...)
@@ -883,6 +977,9 @@ func generate(rng *rand.Rand, tier string) []interface{} {
 	}
 	for i := 0; i < 2*scale; i++ {
 		ins = append(ins, genTCP(rng, 500, false))
+	}
+	for i := 0; i < 16*scale; i++ {
+		ins = append(ins, genTCPGarbage(rng))
 	}
 	return ins
 }
@@ -918,6 +1015,13 @@ func corpus() []interface{} {
 			{Op: "wire", Name: "round", V: 1, Host: 0, Conn: 0}, {Op: "wire", Name: "round", V: 2.5, Host: 1, Conn: 0},
 			{Op: "wire", Name: "round", V: 4, Host: 2, Conn: 1}, {Op: "wire", Name: "End", V: 4, Host: 2, Conn: 1},
 			{Op: "wire", Name: "round", V: 8, Host: 3, Conn: 2},
+			{Op: "header", Obj: 0}, {Op: "values", Obj: 0}, {Op: "get", Idx: 0}}},
+		// C19-N3: a host dies in the middle of a message
+		input{Kind: "tcp-garbage", Mode: "tcp", Statics: st, Conns: 2, Ops: []opIn{
+			{Op: "bucket", Idx: 0, Rules: []string{"0:1"}},
+			{Op: "wire", Name: "round", V: 1, Host: 2, Conn: 0},
+			{Op: "wire", Name: "round", V: 3, Host: 2, Conn: 1},
+			{Op: "wirebad", Conn: 1, Raw: "{\"Name\":\"round\",\"Val"},
 			{Op: "header", Obj: 0}, {Op: "values", Obj: 0}, {Op: "get", Idx: 0}}},
 	}
 }
